@@ -378,6 +378,13 @@ Space == CASE Family = "binary" -> BinaryFamily(0)
            [] Family = "linalg" -> LinalgFamily(0)
            [] Family = "fft" -> FftFamily(0)
            [] Family = "index" -> {c \in IndexFamily(0) : SumConsumes(c.tp, 1) <= Len(c.s) /\ Cardinality({i \in DOMAIN c.tp : c.tp[i].t = "ell"}) <= 1}
+           \* C11, second clause at the rule level: an index expression on a 2-D array combined with two DENSE uses of the same array, for
+           \* every position of the indexed term among the three (ib = 0 first, 1 middle, 2 last) and three kinds of dense use (ia = 0 plain,
+           \* 1 through transposes - cotangents arrive as non-contiguous views -, 2 through reshape)
+           [] Family = "mixorder" -> {[c EXCEPT !.prim = "getitem_mix", !.ia = d[1], !.ib = d[2]] :
+                                        c \in {cc \in IndexFamily(0) : Len(cc.s) = 2 /\ SumConsumes(cc.tp, 1) <= Len(cc.s)
+                                                                        /\ Cardinality({i \in DOMAIN cc.tp : cc.tp[i].t = "ell"}) <= 1},
+                                        d \in (0..2) \X (0..2)}
            [] Family = "contract" -> ContractFamily(0)
 
 VARIABLES cfg, emitted
